@@ -12,7 +12,8 @@ use crate::util::J;
 
 pub struct C07;
 
-const FLAG_LETTERS: [&str; 11] = ["s", "m", "i", "x", "q", ";", "g", "k", "K", "z", " "];
+// (the non-ASCII letters share their low byte with i, m, s, x, q and ';')
+const FLAG_LETTERS: [&str; 18] = ["s", "m", "i", "x", "q", ";", "g", "k", "K", "z", " ", "\u{169}", "\u{16d}", "\u{173}", "\u{178}", "\u{171}", "\u{13b}", "\u{e9}"];
 
 pub fn space_for(tier: Tier) -> Space {
     let mut s = Space::new();
@@ -26,7 +27,7 @@ pub fn space_for(tier: Tier) -> Space {
             s.ast("K", 5, 512).ast("Q", 4, 512).ast("CL", 4, 512).ast("G", 5, 512).ast("AN", 5, 512).ast("CI", 4, 512).ast("U", 4, 512);
         }
     }
-    s.list("flagstrings", 1 + 11 + 121 + 1331, 256);
+    s.list("flagstrings", 1 + 18 + 324 + 5832, 256);
     s.list("whitespace under x", xws_cases().len() as u64, 64);
     s.list("single-character edits", edit_cases().len() as u64, 64);
     s.list("name namespaces", crate::refparse::CATS.len() as u64 + 8, 8);
